@@ -232,3 +232,23 @@ def generate(ctx):
     else:
         os.remove(tmp)
     return ["Relic.Props.C15.cache_getKey_atomic_generated"]
+
+
+# --- SCD ops (token login: configured / prompted PIN, attempts bounded, Bad PIN classification; hostile daemon answers): a further
+# correspondence under the pseudo-property C15SCD, checklib/models/scd.py; theorems Relic.Props.C15.scd_login_single_attempt,
+# scd_prompt_attempts_bounded, scd_bad_pin_classified
+import composite as _composite, scd as _scd
+UNPROVED = list(globals().get("UNPROVED", [])) + _scd.UNPROVED["C15"]
+_gen_c15_scd = generate
+
+
+def generate(ctx):
+    return _gen_c15_scd(ctx) + _scd.generate(ctx)
+
+
+def run(ctx):
+    import runner as _r
+    own, none = _composite.split_replay(ctx, ["scd"])
+    cov, f, k = ({"evaluations": 0, "distinct_nontrivial": 0}, [], []) if none else \
+        _r.correspondence("C15", own, __import__("props.c15", fromlist=["x"]))
+    return _scd.second(ctx, "C15", cov, f, k)
